@@ -226,7 +226,7 @@ def make_case(prop, tier, seed, i):
             elif kind == "tmpl_missing":
                 op["fault"] = {"kind": "tmpl_missing"}
             else:
-                op["fault"] = {"kind": "abort", "frac": rng.random(),
+                op["fault"] = {"kind": "abort", "frac": rng.random(), "wide": rng.random() < 0.4,
                                "exc": weighted(rng, [("RecursionError", 6), ("MemoryError", 3), ("KeyboardInterrupt", 1)])}
         ops.append(op)
     return {"engine": NAME, "prop": prop, "seed": seed, "run": i, "cfg": cfg, "ops": ops}
@@ -241,7 +241,16 @@ def _ref_child(backend, query, ld, count_lines, tag):
         exe = xlate.executor_class(backend)()
         io_plan = xlate.IOPlan(d)
         ab = xlate.AbortPlan() if count_lines else None
-        return xlate.translate(exe, query, d, ld=ld, io_plan=io_plan, abort_plan=ab)
+        r = xlate.translate(exe, query, d, ld=ld, io_plan=io_plan, abort_plan=ab)
+        r["lines_wide"] = 0
+        if count_lines:
+            # second pass counting the line events of the dependencies' frames as well
+            shutil.rmtree(d, ignore_errors=True)
+            os.makedirs(d)
+            ab2 = xlate.AbortPlan(wide=True)
+            r2 = xlate.translate(xlate.executor_class(backend)(), query, d, ld=ld, abort_plan=ab2)
+            r["lines_wide"] = r2["lines"]
+        return r
     finally:
         shutil.rmtree(d, ignore_errors=True)
 
@@ -296,7 +305,8 @@ def _history_child(case, refs):
                     ncalls = len(ref["io_calls"])
                     io_plan = xlate.IOPlan(d, k=int(f["frac"] * ncalls) if ncalls else 0, err=f["errno"])
                 elif f and f["kind"] == "abort":
-                    ab = xlate.AbortPlan(n=int(f["frac"] * max(1, ref["lines"])), exc=f["exc"])
+                    lines = ref["lines_wide"] if f.get("wide") else ref["lines"]
+                    ab = xlate.AbortPlan(n=int(f["frac"] * max(1, lines)), exc=f["exc"], wide=bool(f.get("wide")))
                 tm = xlate.TemplateDirMissing() if f and f["kind"] == "tmpl_missing" else None
                 n_streams = len(streams)
                 got = xlate.translate(exe, q, d, ld=op["ld"], io_plan=io_plan, abort_plan=ab, extra_seam=tm,
